@@ -28,6 +28,29 @@ theorem source_shape :
     Facts.C14.guessLoopCond = "i <= len(paddedData)" ∧
     Facts.C14.fillBytesCond = "(bits+7)/8 > len(to)" := by decide
 
+/-- The operands of every step of `RSAPad` / `DecodeRSAPad`, **regenerated from the source and
+interpreted by the model** (`Model/C14.lean`: `W`): what is copied and reversed, the `h.Write` sequences
+(`temp_key`, `data_with_padding`), cipher key / IV / source of the IGE calls, the xor operands, the
+order of the `append`s building `data_with_hash` and `key_aes_encrypted`, the slices taken by the
+decoder (`[:32]`, `[32:]`, `[:192]`, `[192:]`) and what is compared with the hash. -/
+theorem pad_operands_are_spec :
+    Facts.C14.encCopies = [(.dataWithPadding, .data), (.dataPadReversed, .dataWithPadding)] ∧
+    Facts.C14.encReverseArg = [.dataPadReversed] ∧
+    Facts.C14.encAppends = [(.dataWithHash, .dataPadReversed), (.keyAESEncrypted, .tempKeyXor),
+      (.keyAESEncrypted, .aesEncrypted)] ∧
+    Facts.C14.encHashWrites = [.tempKey, .dataWithPadding] ∧
+    Facts.C14.encCipherKey = [.tempKey] ∧ Facts.C14.encIgeArgs = [.zeroIV, .aesEncrypted, .dataWithHash] ∧
+    Facts.C14.encSum256Arg = [.aesEncrypted] ∧ Facts.C14.encXorArgs = [.tempKeyXor, .tempKey, .aesEncryptedHash] ∧
+    Facts.C14.encRsaArg = [.keyAESEncrypted, .unknown] ∧
+    Facts.C14.decRsaDst = .encryptedData ∧
+    Facts.C14.decSlices = [(.tempKeyXor, .encryptedData, none, some 32), (.aesEncrypted, .encryptedData, some 32, none),
+      (.dataWithPadding, .dataWithHash, none, some 192), (.hash, .dataWithHash, some 192, none)] ∧
+    Facts.C14.decSum256Arg = [.aesEncrypted] ∧ Facts.C14.decXorArgs = [.tempKey, .tempKeyXor, .aesEncryptedHash] ∧
+    Facts.C14.decCipherKey = [.tempKey] ∧ Facts.C14.decIgeArgs = [.zeroIV, .dataWithHash, .aesEncrypted] ∧
+    Facts.C14.decReverseArg = [.dataWithPadding] ∧ Facts.C14.decHashWrites = [.tempKey, .dataWithPadding] ∧
+    Facts.C14.decCompare = .hash ∧ Facts.C14.decCompareWith = "h.Sum(nil)" :=
+  ⟨rfl, rfl, rfl, rfl, rfl, rfl, rfl, rfl, rfl, rfl, rfl, rfl, rfl, rfl, rfl, rfl, rfl, rfl, rfl⟩
+
 /-! ### RSA_PAD -/
 
 /-- Size limit: data longer than 144 bytes is refused, up to 144 bytes never for its length. -/
@@ -107,8 +130,7 @@ theorem decodePad_ok_hash (P : Prims) (Q : NumPrims) (key : PrivKey) (c x : Byte
       let tk := Ige.xorB (enc.take 32) (P.sha256 (enc.drop 32))
       let dwh := Ige.dec (P.aesDec tk) (List.replicate 32 0) (enc.drop 32)
       x = (dwh.take 192).reverse ∧ dwh.drop 192 = P.sha256 (tk ++ x) := by
-  unfold decodeRsaPad at h
-  rw [rsaLen_eq, tempKeySize_eq, dataWithPaddingLength_eq] at h
+  rw [decodeRsaPad_unfold, rsaLen_eq] at h
   split at h
   · cases h
   · rename_i enc he
